@@ -383,7 +383,7 @@ class Gen:
             d["cache"] = "factory"  # created through one shared, configured decorator (cache=<callable>)
         via = {}
         if rng.random() < 0.2 and d.get("args"):
-            via["defaults"] = rng.choice(["where", "kwarg", "var_kwargs"])
+            via["defaults"] = rng.choice(["where", "kwarg", "var_kwargs", "lifted"])
         if d.get("cache") == "nocache" and rng.random() < 0.5:
             via["nocache_property"] = True
         elif d.get("cache") in (None, "memory") and rng.random() < 0.15:
